@@ -113,6 +113,12 @@ func Do(c *sim.Cluster, a Action) error {
 		return c.RequestUnknown(a.B, a.A)
 	case "S":
 		return c.SetSilent(a.A, true)
+	case "SP":
+		// validator A goes silent; B is a validator whose leave was requested earlier (see LeaveSilent)
+		if why := outsideLeavePremise(c, a.A, a.B); why != "" {
+			c.Outside = why
+		}
+		return c.SetSilent(a.A, true)
 	case "H":
 		return c.SetSilent(a.A, false)
 	case "Start":
@@ -183,3 +189,41 @@ func AutoJoin(c *sim.Cluster, asked map[int]int) {
 
 // CustomActions lets checks add action kinds (executed as a cluster step).
 var CustomActions = map[string]func(c *sim.Cluster, a Action) error{}
+
+// outsideLeavePremise returns "" if every live validator other than `going` has, in its validator-set table, a set
+// without validator `left` from some round E on, and a head event whose round is at least E.
+func outsideLeavePremise(c *sim.Cluster, going, left int) string {
+	for _, n := range c.Live() {
+		if n.Idx == going || n.Idx == left {
+			continue
+		}
+		all, err := n.Node.GetAllValidatorSets()
+		if err != nil {
+			return fmt.Sprintf("node %d: %v", n.Idx, err)
+		}
+		e := -1
+		for r, ps := range all {
+			has := false
+			for _, p := range ps {
+				if p.PubKeyString() == sim.PubHex(left) {
+					has = true
+				}
+			}
+			if !has && (e < 0 || r < e) {
+				e = r
+			}
+		}
+		if e < 0 {
+			return fmt.Sprintf("node %d has not committed the leave yet", n.Idx)
+		}
+		head := n.Node.VCoreState().Head
+		r, err := n.Node.VHashgraph().VRound(head)
+		if err != nil {
+			return fmt.Sprintf("node %d: round of its head: %v", n.Idx, err)
+		}
+		if r < e {
+			return fmt.Sprintf("node %d's head is in round %d, the leave takes effect in round %d", n.Idx, r, e)
+		}
+	}
+	return ""
+}
